@@ -505,6 +505,21 @@ def propose(rng: random.Random, pool: list[dict], families: list[str] | None = N
             if y is not None and rng.random() < 0.7:
                 v = y["ref"]
             return "setitem_null", [x["ref"], v], {"index": idx}
+        if c < 0.2 and len(shp) >= 1:
+            # an ARRAY update that has to be broadcast into the selection (extent 1 against the selection's extent, through
+            # static, symbolic or unknown dims alike): x[::2] = u, x[1:, :] = u, x[::-1] = u
+            idx = [rng.choice([[None, None, None], [None, None, -1], [None, None, 2], [1, None, None]]) for _ in shp]
+            sel = np.empty(shp)[_idx(idx)].shape
+            def fits(e):
+                if e["dtype"] != d or len(e["shape"]) > len(sel) or len(e["shape"]) == 0:
+                    return False
+                try:
+                    return np.broadcast_shapes(tuple(e["shape"]), sel) == sel
+                except ValueError:
+                    return False
+            y = pick(fits)
+            if y is not None:
+                return "setitem", [x["ref"], y["ref"]], {"index": idx}
         if c < 0.5:
             idx = _basic_index(rng, shp)
             idx = [e for e in idx if e is not None]
